@@ -4,6 +4,7 @@ fresh clamp reports the closest point of the manifold (the creation position whe
 symmetry and rotation links keep their relation for leader moves of any size; `update` does not touch the leader.
 -/
 import CBV.Lemmas.C17
+import CBV.Lemmas.C17Unique
 import Mathlib.Algebra.Order.Field.Basic
 
 namespace CBV.C17
@@ -266,5 +267,182 @@ theorem T_C17_grid_all_links (links : List (Nat × (V3 → V3))) (li : Nat) (p :
 example : (([(4, fun q => q), (7, fun q => q)] : List (Nat × (V3 → V3))).map Prod.fst).Nodup ∧
     1 ∉ ([(4, fun q => q), (7, fun q => q)] : List (Nat × (V3 → V3))).map Prod.fst := by
   constructor <;> decide
+
+/-! ### Round 6: clamps on curves and parametric surfaces (exactly representable families) -/
+
+/-- `CurveClamp` on a `LineCurve`: for EVERY parameter the position is on the line through `point_1`, `point_2`
+    (collinear), parameter 0 / 1 are the two points, equal parameter steps are equal displacements, and for a
+    parameter within `[0, 1]` the position is on the segment -/
+theorem T_C17_curve_line_on (p1 p2 : V3) (t : Rat) :
+    V3.cross (curveLine p1 p2 t - p1) (p2 - p1) = V3.zero ∧ curveLine p1 p2 0 = p1 ∧ curveLine p1 p2 1 = p2 ∧
+      (∀ s, curveLine p1 p2 t - curveLine p1 p2 s = V3.smul (t - s) (p2 - p1)) ∧
+      (0 ≤ t → t ≤ 1 → ∃ lam, 0 ≤ lam ∧ lam ≤ 1 ∧ curveLine p1 p2 t = V3.smul (1 - lam) p1 + V3.smul lam p2) := by
+  refine ⟨?_, ?_, ?_, ?_, ?_⟩
+  · apply V3.ext' <;> simp only [curveLine] <;> c17_unfold <;> ring
+  · apply V3.ext' <;> simp only [curveLine] <;> c17_unfold <;> ring
+  · apply V3.ext' <;> simp only [curveLine] <;> c17_unfold <;> ring
+  · intro s; apply V3.ext' <;> simp only [curveLine] <;> c17_unfold <;> ring
+  · intro h0 h1
+    refine ⟨t, h0, h1, ?_⟩
+    apply V3.ext' <;> simp only [curveLine] <;> c17_unfold <;> ring
+
+/-- a fresh `CurveClamp` on a `LineCurve` with bounds `[b0, b1]`: the closed-form parameter is within the bounds, its
+    point is at least as close to the creation position as the point of every admissible parameter, and it is the
+    creation position when that is an admissible point of the curve (what `get_closest_param` + `minimize` look for) -/
+theorem T_C17_initial_curve_line (p1 p2 : V3) (b0 b1 : Rat) (pos : V3) (hd : V3.dot (p2 - p1) (p2 - p1) ≠ 0)
+    (hb : b0 ≤ b1) :
+    (b0 ≤ curveLineInitParam p1 p2 b0 b1 pos ∧ curveLineInitParam p1 p2 b0 b1 pos ≤ b1) ∧
+    (∀ t, b0 ≤ t → t ≤ b1 → V3.norm2 (pos - curveLineInit p1 p2 b0 b1 pos) ≤ V3.norm2 (pos - curveLine p1 p2 t)) ∧
+    (∀ t, b0 ≤ t → t ≤ b1 → pos = curveLine p1 p2 t → curveLineInit p1 p2 b0 b1 pos = pos) := by
+  have hD : 0 < V3.dot (p2 - p1) (p2 - p1) := by
+    have : 0 ≤ V3.dot (p2 - p1) (p2 - p1) := by
+      simp only [V3.dot]; nlinarith [mul_self_nonneg (p2 - p1).x, mul_self_nonneg (p2 - p1).y, mul_self_nonneg (p2 - p1).z]
+    exact lt_of_le_of_ne this (Ne.symm hd)
+  -- squared distance as a quadratic in the parameter
+  have hq : ∀ t, V3.norm2 (pos - curveLine p1 p2 t) =
+      V3.norm2 (pos - p1) - V3.dot (pos - p1) (p2 - p1) * V3.dot (pos - p1) (p2 - p1) / V3.dot (p2 - p1) (p2 - p1)
+        + V3.dot (p2 - p1) (p2 - p1) * ((t - V3.dot (pos - p1) (p2 - p1) / V3.dot (p2 - p1) (p2 - p1)) *
+            (t - V3.dot (pos - p1) (p2 - p1) / V3.dot (p2 - p1) (p2 - p1))) := by
+    intro t
+    unfold curveLine
+    rw [dist_line]
+    field_simp
+    ring
+  refine ⟨clampTo_mem _ _ _ hb, ?_, ?_⟩
+  · intro t h1 h2
+    unfold curveLineInit
+    rw [hq, hq t]
+    have := clampTo_closest b0 b1 (V3.dot (pos - p1) (p2 - p1) / V3.dot (p2 - p1) (p2 - p1)) t h1 h2
+    unfold curveLineInitParam
+    nlinarith
+  · intro t h1 h2 hpos
+    have hm : V3.dot (pos - p1) (p2 - p1) / V3.dot (p2 - p1) (p2 - p1) = t := by
+      have : V3.dot (pos - p1) (p2 - p1) = t * V3.dot (p2 - p1) (p2 - p1) := by
+        rw [hpos]; simp only [curveLine]; c17_unfold; ring
+      rw [this]; field_simp
+    unfold curveLineInit curveLineInitParam
+    rw [hm, clampTo_id b0 b1 t h1 h2, ← hpos]
+
+example : V3.dot ((⟨4, 1, 0⟩ : V3) - ⟨0, 0, 0⟩) (⟨4, 1, 0⟩ - ⟨0, 0, 0⟩) ≠ 0 ∧ (0 : Rat) ≤ 1 := by
+  constructor
+  · c17_unfold; norm_num
+  · norm_num
+
+/-- `CurveClamp` on a `LinearInterpolatedCurve` (piecewise linear through the knots, whatever their parameters —
+    chord length or index — as long as they increase): for every parameter of the knot range the position exists and
+    lies on ONE segment of the polyline, between two consecutive points, at the fraction its parameter has between
+    the two knot parameters -/
+theorem T_C17_curve_polyline_on (ks : List (Rat × V3)) (t : Rat) (hk : knotsOk ks = true) :
+    (∀ p, polyEval ks t = some p →
+      ∃ a b lam, (a, b) ∈ ks.zip ks.tail ∧ 0 ≤ lam ∧ lam ≤ 1 ∧ a.1 ≤ t ∧ t ≤ b.1 ∧
+        p = a.2 + V3.smul lam (b.2 - a.2) ∧ lam * (b.1 - a.1) = t - a.1) ∧
+    (∀ k0, ks.head? = some k0 → 2 ≤ ks.length → k0.1 ≤ t → (∀ kl, ks.getLast? = some kl → t ≤ kl.1) →
+      (polyEval ks t).isSome = true) :=
+  ⟨fun p hp => polyEval_on_segment ks t p hk hp, fun k0 h1 h2 h3 h4 => polyEval_defined ks t k0 h1 h2 h3 h4⟩
+
+example : knotsOk [(0, ⟨0, 0, 0⟩), (1 / 3, ⟨1, 0, 0⟩), (1, ⟨1, 2, 0⟩)] = true ∧
+    polyEval [(0, ⟨0, 0, 0⟩), (1 / 3, ⟨1, 0, 0⟩), (1, ⟨1, 2, 0⟩)] (2 / 3) = some ⟨1, 1, 0⟩ := by
+  constructor
+  · simp [knotsOk]; norm_num
+  · simp only [polyEval]; norm_num
+    apply V3.ext' <;> c17_unfold <;> norm_num
+
+/-- at a knot parameter the polyline passes through the knot's point (interpolation), from both sides -/
+theorem T_C17_curve_polyline_knots (a b c : Rat × V3) (rest : List (Rat × V3)) (hab : a.1 < b.1) (hbc : b.1 < c.1) :
+    polyEval (a :: b :: c :: rest) a.1 = some a.2 ∧ polyEval (a :: b :: c :: rest) b.1 = some b.2 ∧
+      polyEval (b :: c :: rest) b.1 = some b.2 := by
+  have e0 : ∀ (x y : V3), x + V3.smul 0 (y - x) = x := by
+    intro x y; apply V3.ext' <;> c17_unfold <;> ring
+  have e1 : ∀ (x y : V3), x + V3.smul 1 (y - x) = y := by
+    intro x y; apply V3.ext' <;> c17_unfold <;> ring
+  refine ⟨?_, ?_, ?_⟩
+  · simp only [polyEval, lt_irrefl, if_false, le_of_lt hab, if_true, sub_self, zero_div, e0]
+  · have hne : b.1 - a.1 ≠ 0 := by linarith
+    simp only [polyEval, not_lt.mpr (le_of_lt hab), if_false, le_refl, if_true, div_self hne, e1]
+  · simp only [polyEval, lt_irrefl, if_false, le_of_lt hbc, if_true, sub_self, zero_div, e0]
+
+example : ((0 : Rat), (⟨0, 0, 0⟩ : V3)).1 < ((1 : Rat), (⟨1, 0, 0⟩ : V3)).1 := by norm_num
+
+/-- `ParametricSurfaceClamp` on a plane `o + u·a + v·b`: for all parameters the position is in the plane through `o`
+    normal to `a × b` -/
+theorem T_C17_surface_plane_on (o a b : V3) (u v : Rat) :
+    V3.dot (surfPlane o a b u v - o) (V3.cross a b) = 0 := by
+  simp only [surfPlane]; c17_unfold; ring
+
+/-- … and on a bilinear patch: for all parameters the position lies on the straight line joining the points with
+    the same `u` on the two opposite edges (and likewise for `v`): the patch is doubly ruled; the corners and the four
+    edges are reproduced; in the frame of the corners (`p10 − p00`, `p01 − p00`, twist `p11 − p10 − p01 + p00`) the
+    coordinates are `(u, v, u·v)` — the implicit equation `z = x·y` of the hyperbolic paraboloid -/
+theorem T_C17_surface_bilinear_on (p00 p10 p01 p11 : V3) (u v : Rat) :
+    surfBilinear p00 p10 p01 p11 u v =
+        V3.smul (1 - v) (curveLine p00 p10 u) + V3.smul v (curveLine p01 p11 u) ∧
+    surfBilinear p00 p10 p01 p11 u v =
+        V3.smul (1 - u) (curveLine p00 p01 v) + V3.smul u (curveLine p10 p11 v) ∧
+    surfBilinear p00 p10 p01 p11 u v =
+        p00 + V3.smul u (p10 - p00) + V3.smul v (p01 - p00) + V3.smul (u * v) (p11 - p10 - p01 + p00) ∧
+    surfBilinear p00 p10 p01 p11 0 0 = p00 ∧ surfBilinear p00 p10 p01 p11 1 0 = p10 ∧
+    surfBilinear p00 p10 p01 p11 0 1 = p01 ∧ surfBilinear p00 p10 p01 p11 1 1 = p11 := by
+  refine ⟨?_, ?_, ?_, ?_, ?_, ?_, ?_⟩ <;>
+    (apply V3.ext' <;> simp only [surfBilinear, curveLine] <;> c17_unfold <;> ring)
+
+/-! ### Round 6: the relation of a `RotationLink` determines the follower -/
+
+/-- **Uniqueness.**  Given the axis `(o, a)`, the original leader `l0` off the axis, the moved leader `l1` and the
+    original follower `f0`, at most ONE point satisfies the relation of a rotation link — same height along the axis,
+    same radius, and the same cosine and sine of the turn of the radius vectors as the leader's (cross-multiplied as
+    in `rotValid`, no square roots): two such points are equal. -/
+theorem T_C17_rotation_unique (a o l0 l1 f0 f1 f1' : V3) (ha : V3.dot a a ≠ 0)
+    (hl : V3.norm2 (radial a o l0) ≠ 0)
+    (hh : V3.dot (f1 - o) a = V3.dot (f0 - o) a) (hh' : V3.dot (f1' - o) a = V3.dot (f0 - o) a)
+    (hr : V3.norm2 (radial a o f1) = V3.norm2 (radial a o f0))
+    (hr' : V3.norm2 (radial a o f1') = V3.norm2 (radial a o f0))
+    (hc : V3.dot (radial a o f0) (radial a o f1) * V3.norm2 (radial a o l0)
+      = V3.dot (radial a o l0) (radial a o l1) * V3.norm2 (radial a o f0))
+    (hc' : V3.dot (radial a o f0) (radial a o f1') * V3.norm2 (radial a o l0)
+      = V3.dot (radial a o l0) (radial a o l1) * V3.norm2 (radial a o f0))
+    (hs : V3.dot (V3.cross (radial a o f0) (radial a o f1)) a * V3.norm2 (radial a o l0)
+      = V3.dot (V3.cross (radial a o l0) (radial a o l1)) a * V3.norm2 (radial a o f0))
+    (hs' : V3.dot (V3.cross (radial a o f0) (radial a o f1')) a * V3.norm2 (radial a o l0)
+      = V3.dot (V3.cross (radial a o l0) (radial a o l1)) a * V3.norm2 (radial a o f0)) :
+    f1 = f1' := by
+  apply point_of_radial a o f1 f1' ha (by rw [hh, hh'])
+  apply radial_unique a (radial a o f0) _ _ ha (radial_perp a o f0) (radial_perp a o f1) (radial_perp a o f1') hr hr'
+  · exact mul_right_cancel₀ hl (by rw [hc, hc'])
+  · exact mul_right_cancel₀ hl (by rw [hs, hs'])
+
+/-- hence, when the leader is turned about the axis by the quaternion `(w, a)`, the follower the link computes,
+    `rotationLink w a o f0`, is THE point in that relation: any point that `rotValid` accepts exactly is it -/
+theorem T_C17_rotation_characterised (w : Rat) (a o l0 f0 f1 : V3) (ha : V3.dot a a ≠ 0)
+    (hN : w * w + V3.dot a a ≠ 0) (hl : V3.norm2 (radial a o l0) ≠ 0)
+    (hh : V3.dot (f1 - o) a = V3.dot (f0 - o) a)
+    (hr : V3.norm2 (radial a o f1) = V3.norm2 (radial a o f0))
+    (hc : V3.dot (radial a o f0) (radial a o f1) * V3.norm2 (radial a o l0)
+      = V3.dot (radial a o l0) (radial a o (rotP w a o l0)) * V3.norm2 (radial a o f0))
+    (hs : V3.dot (V3.cross (radial a o f0) (radial a o f1)) a * V3.norm2 (radial a o l0)
+      = V3.dot (V3.cross (radial a o l0) (radial a o (rotP w a o l0))) a * V3.norm2 (radial a o f0)) :
+    f1 = rotationLink w a o f0 := by
+  obtain ⟨g1, _, g3, g4, g5⟩ := T_C17_rotation w a o l0 f0 hN
+  exact T_C17_rotation_unique a o l0 (rotP w a o l0) f0 f1 (rotationLink w a o f0) ha hl hh g1 hr g3 hc g4 hs g5
+
+example : V3.dot (⟨1, 2, 2⟩ : V3) ⟨1, 2, 2⟩ ≠ 0 ∧ (3 : Rat) * 3 + V3.dot (⟨1, 2, 2⟩ : V3) ⟨1, 2, 2⟩ ≠ 0 ∧
+    V3.norm2 (radial ⟨1, 2, 2⟩ ⟨0, 1, 0⟩ ⟨3, 0, 1⟩) ≠ 0 := by
+  refine ⟨?_, ?_, ?_⟩ <;> (c17_unfold; norm_num)
+
+/-- the relation leader ↦ follower commutes with every further rotation about the link's axis: turning the original
+    follower by the leader's rotation and then both by a second rotation about the axis is the same as first turning
+    the configuration and then linking (rotations about one axis commute) -/
+theorem T_C17_rotation_commutes (w1 w2 : Rat) (a o p : V3) (h1 : w1 * w1 + V3.dot a a ≠ 0)
+    (h2 : w2 * w2 + V3.dot a a ≠ 0) :
+    rotP w2 a o (rotationLink w1 a o p) = rotationLink w1 a o (rotP w2 a o p) := by
+  simp only [V3.dot] at h1 h2
+  apply V3.ext' <;> c17_unfold <;> field_simp <;> ring
+
+example : (2 : Rat) * 2 + V3.dot (⟨1, 2, 2⟩ : V3) ⟨1, 2, 2⟩ ≠ 0 := by c17_unfold; norm_num
+
+/-! ### Round 6: the source the model transcribes -/
+
+/-- every expression / statement list of `optimize/clamps`, `optimize/links` and `LineCurve` that a model definition
+    transcribes is what the current source says (regenerated with `ast` on every run) -/
+theorem T_C17_source : sourceTable = Gen.c17Source := by rfl
 
 end CBV.C17
